@@ -39,7 +39,9 @@ from common import cstr, clist, cbool, copt, cpair, cz, cn
 THEOREMS = [
     'C09_normalize_float_normal_form', 'C09_normalize_float_classes',
     'C09_normalize_float_kept_distinct', 'C09_normal_form_fixed',
-    'C09_normalize_float_value',
+    'C09_normalize_float_value', 'C09_same_name_iff',
+    'C09_different_values_different_names', 'C09_like_chain_last_wins',
+    'C09_like_inherits',
     'C09_normalize_float_idempotent', 'C09_parse_material_density_fixed',
     'C09_parse_material_classes', 'C09_like_but_rho',
     'C09_like_but_void', 'C09_pot_fill_provenance',
